@@ -28,7 +28,7 @@ namespace LibInj.Properties.C10
 open LibInj LibInj.Sqli
 
 theorem searchKeyword_case (w w' : Bytes) (h : CaseEq w w') : searchKeyword w = searchKeyword w' := by
-  unfold searchKeyword
+  rw [searchKeyword_eq, searchKeyword_eq]; unfold searchKeywordSpec
   rw [goUpper_case_invariant w w' h]
 
 theorem toUpperCmp_case (lit w w' : Bytes) (h : CaseEq w w') : toUpperCmp lit w = toUpperCmp lit w' := by
